@@ -58,7 +58,8 @@ func vnSame[T VScalar](a, b T) bool {
 // vnRun: build a tensor of the configured shape and layout over symbolic elements, convert it with the configured
 // conversion, and require (1) a contiguous row-major tensor of the matching rank converts without error and (2) every
 // conversion that reports success has the tensor's nested lengths and, at every position, the element with the same
-// row-major rank. Refusals (wrong rank, axis out of range, layouts that need an iterator) are accepted and not demanded.
+// row-major rank, and no row but the last has capacity beyond its length (C04: a write - here an append - through a
+// conversion's row must not reach elements outside it). Refusals (wrong rank, axis out of range, layouts that need an iterator) are accepted and not demanded.
 func vnRun[T VScalar](vec func(*Dense) ([]T, error), mat func(*Dense) ([][]T, error), t3 func(*Dense) ([][][]T, error), sel func(*Dense, int) ([][]T, error)) {
 	shape := VCfgInts("shape")
 	conv := VCfgStr("conv")
@@ -66,7 +67,32 @@ func vnRun[T VScalar](vec func(*Dense) ([]T, error), mat func(*Dense) ([][]T, er
 	rank := len(shape)
 	t, want := VMkOperand[T]("e", shape, base)
 	n := VProd(shape)
-	VReach("native." + conv)
+	if len(conv) > 1 && conv[0] == 'g' {
+		// the reflect-based generic conversions of generic.go, brought to the typed signatures
+		conv = conv[1:]
+		vec = func(t *Dense) ([]T, error) {
+			v, err := Vector(t)
+			if err != nil {
+				return nil, err
+			}
+			return v.([]T), nil
+		}
+		mat = func(t *Dense) ([][]T, error) {
+			v, err := Matrix(t)
+			if err != nil {
+				return nil, err
+			}
+			return v.([][]T), nil
+		}
+		t3 = func(t *Dense) ([][][]T, error) {
+			v, err := Tensor3(t)
+			if err != nil {
+				return nil, err
+			}
+			return v.([][][]T), nil
+		}
+	}
+	VReach("native." + VCfgStr("conv"))
 	switch conv {
 	case "vector":
 		var out []T
@@ -112,6 +138,7 @@ func vnRun[T VScalar](vec func(*Dense) ([]T, error), mat func(*Dense) ([][]T, er
 			if len(out[i]) != shape[1] {
 				return
 			}
+			VAssert(cap(out[i]) == shape[1] || i == shape[0]-1, "row-cap")
 			for j := 0; j < shape[1]; j++ {
 				VAssert(vnSame(out[i][j], want[i*shape[1]+j]), "elem")
 			}
@@ -144,6 +171,7 @@ func vnRun[T VScalar](vec func(*Dense) ([]T, error), mat func(*Dense) ([][]T, er
 				if len(out[i][j]) != shape[2] {
 					return
 				}
+				VAssert(cap(out[i][j]) == shape[2] || (i == shape[0]-1 && j == shape[1]-1), "row-cap")
 				for k := 0; k < shape[2]; k++ {
 					VAssert(vnSame(out[i][j][k], want[(i*shape[1]+j)*shape[2]+k]), "elem")
 				}
@@ -179,6 +207,7 @@ func vnRun[T VScalar](vec func(*Dense) ([]T, error), mat func(*Dense) ([][]T, er
 			if len(out[r]) != width {
 				return
 			}
+			VAssert(cap(out[r]) == width || r == rows-1, "row-cap")
 			for c := 0; c < width; c++ {
 				VAssert(vnSame(out[r][c], want[r*width+c]), "elem")
 			}
